@@ -1,6 +1,7 @@
 package checks
 
 import (
+	"bytes"
 	"encoding/json"
 	"fmt"
 	"os"
@@ -35,7 +36,7 @@ var c01AltKinds = []string{
 	"none", "neutral",
 	"content", "content", "content", "content", "payload-bytes", "inmemory",
 	"sig-drop", "sig-flip", "sig-swap", "sig-retarget", "sig-empty", "sig-junk-first", "sig-dup-for-missing", "inmemory", "stranger-relabelled-sig", "sig-undecodable", "sig-undecodable", "dsse-two-payload-members", "dsse-two-payload-members", "altered-keyid-case", "altered-cert-member",
-	"keys-empty", "keys-add-nonsigner", "keys-stranger", "keys-pubswap", "keys-subset", "keys-unknown-type", "keys-unknown-type",
+	"keys-empty", "keys-add-nonsigner", "keys-stranger", "keys-pubswap", "keys-pubswap-cert", "keys-pubswap-cert", "keys-subset", "keys-unknown-type", "keys-unknown-type",
 }
 
 func c01ContentMutations(w hx.World) (any, []hx.TreeMutation) {
@@ -148,13 +149,18 @@ func c01Eval(c c01Case, r *hx.Rec, enum *hx.TreeMutation) error {
 		} else {
 			w.VerifierKeys = []hx.WKey{{Key: alt.Other}}
 		}
-	case "keys-pubswap":
+	case "keys-pubswap", "keys-pubswap-cert":
 		i := alt.A % len(w.VerifierKeys)
 		if alt.Other == w.VerifierKeys[i].Key {
 			applied = false
 		} else {
 			ks := append([]hx.WKey{}, w.VerifierKeys...)
 			ks[i].PublicOf = alt.Other
+			if alt.Kind == "keys-pubswap-cert" {
+				// ... and the key object still carries the certificate of the key that signed (a certificate left
+				// over from before a rotation): the public part is the key, the certificate is an attachment
+				ks[i].CertOf = ks[i].Key
+			}
 			w.VerifierKeys = ks
 		}
 	case "keys-unknown-type":
@@ -427,7 +433,53 @@ func c01Eval(c c01Case, r *hx.Rec, enum *hx.TreeMutation) error {
 		})
 	case "inmemory":
 		if isDSSE {
-			applied = false
+			// the caller takes the payload out of the envelope, changes something BELOW its top level in place
+			// (slices and maps of the value he got are shared with whatever the envelope keeps), and sets it as
+			// payload again - without signing: nothing signed covers what is enforced now
+			md, lerr := intoto.LoadMetadata(b.LayoutPath)
+			env, ok := md.(*intoto.Envelope)
+			if lerr != nil || !ok {
+				return fmt.Errorf("harness: honest layout does not load: %v", lerr)
+			}
+			lay, ok := env.GetPayload().(intoto.Layout)
+			if !ok {
+				return fmt.Errorf("harness: not a layout")
+			}
+			before, _ := json.Marshal(lay)
+			if alt.B%3 == 1 {
+				_ = b.VerifyWith(env, nil, nil) // (verified honestly first)
+			}
+			switch alt.A % 5 {
+			case 0:
+				if len(lay.Inspect) > 0 && len(lay.Inspect[0].Run) > 0 {
+					lay.Inspect[0].Run[len(lay.Inspect[0].Run)-1] += "-altered"
+				}
+			case 1:
+				if len(lay.Steps) > 0 && len(lay.Steps[0].PubKeys) > 0 {
+					lay.Steps[0].PubKeys[0] = hx.PoolKey(alt.Other).KeyID
+				}
+			case 2:
+				if lay.Keys != nil {
+					k := hx.PoolKey(alt.Other).Pub()
+					lay.Keys[k.KeyID] = k
+				}
+			case 3:
+				if len(lay.Steps) > 0 && len(lay.Steps[0].ExpectedProducts) > 0 && len(lay.Steps[0].ExpectedProducts[0]) > 1 {
+					lay.Steps[0].ExpectedProducts[0][1] = "*"
+					lay.Steps[0].ExpectedProducts[0][0] = "ALLOW"
+				}
+			default:
+				lay.Readme += "!"
+			}
+			after, _ := json.Marshal(lay)
+			if bytes.Equal(before, after) {
+				applied = false
+				break
+			}
+			if serr := env.SetPayload(lay); serr != nil {
+				return fmt.Errorf("harness: SetPayload: %v", serr)
+			}
+			inMemory = env
 			break
 		}
 		md, lerr := intoto.LoadMetadata(b.LayoutPath)
@@ -525,7 +577,13 @@ func c01Eval(c c01Case, r *hx.Rec, enum *hx.TreeMutation) error {
 		if derr != nil {
 			return nil
 		}
-		sf.SignBytes, _ = hx.RefCJSON(tree)
+		if isDSSE {
+			// the envelope of the file was signed over another payload: no entry can cover the new one
+			cb, _ := hx.RefCJSON(tree)
+			sf.SignBytes = hx.RefPAE(hx.InTotoPayloadType, cb)
+		} else {
+			sf.SignBytes, _ = hx.RefCJSON(tree)
+		}
 	}
 	for _, wk := range w.VerifierKeys {
 		pubOf := wk.Key
